@@ -188,11 +188,12 @@ def r3(ctx, cfg):
         ok = len(ld) == 1 and len(sv) == 1
         if ok:
             la, sa = P.call_args(f, ld[0][1], ld[0][0]), P.call_args(f, sv[0][1], sv[0][0])
-            rec = sa[3]
-            while rec[0] == "vp":
-                rec = rec[2]
-            ok = same_origin(la[2], sa[2]) and rec[0] == "upd" and [p for p, v in rec[2] if not (p and p[0] == "&mut")] == [("rewards",)] and \
-                contains([v for p, v in rec[2] if p == ("rewards",)][0], lambda x: x[0] == "call" and x[1].endswith("Decimal::zero"))
+            def is_loaded(o):
+                o = peel(o)
+                return o[0] == "ok" and peel(o[1])[0] == "call" and peel(o[1])[1] == "cw_storage_plus::Map::load" and peel(peel(o[1])[2][0]) == STAKES
+            ch = q.record_update(sa[3], is_loaded)
+            ok = same_origin(la[2], sa[2]) and ch is not None and list(ch) == ["rewards"] and \
+                contains(ch["rewards"], lambda x: x[0] == "call" and x[1].endswith("Decimal::zero"))
             ok = ok and contains(la[2], lambda x: x[0] == "param" and x[2] == "delegator") and contains(la[2], lambda x: x[0] == "param" and x[2] == "validator")
         ctx.ob(R, f.key, "loaded-entry-saved-with-rewards=0-only", ok, "remove_rewards does not save the loaded (delegator, validator) entry with only rewards reset to zero", fn=f,
                sample="shares = load(k); shares.rewards = 0; save(k, shares)")
@@ -202,7 +203,13 @@ def r3(ctx, cfg):
         # the value returned is read before the reset
         mf = [(b, t) for b, t in f.calls() if t["callee"]["key"].endswith("Uint128::mul_floor")]
         zero = [(b, i) for b, i, st in f.stmts() if st["k"] == "assign" and st["dst"]["p"] and st["dst"]["p"][-1].get("name") == "rewards"]
-        ok = len(mf) == 1 and len(zero) == 1 and cfg_of(f).site_dominates((mf[0][0], "t"), zero[0]) or (len(mf) == 1 and len(zero) == 1 and cfg_of(f).dominates(mf[0][0], zero[0][0]))
+        if not zero and len(mf) == 1:
+            # no in-place reset (the cleared record is a new value): the amount must be computed from the loaded rewards
+            ma = P.call_args(f, mf[0][1], mf[0][0])
+            ok = contains(ma[1], lambda x: x[0] == "field" and x[2] == "rewards" and peel(x[1])[0] == "ok" and peel(peel(x[1])[1])[0] == "call" and
+                          peel(peel(x[1])[1])[1] == "cw_storage_plus::Map::load") and not contains(ma[1], lambda x: x[0] == "call" and x[1].endswith("Decimal::zero"))
+        else:
+            ok = len(mf) == 1 and len(zero) == 1 and cfg_of(f).site_dominates((mf[0][0], "t"), zero[0]) or (len(mf) == 1 and len(zero) == 1 and cfg_of(f).dominates(mf[0][0], zero[0][0]))
         ctx.ob(R, f.key, "reward-read-before-reset", ok, "the reward is read after it was reset", fn=f, sample="floor(..) dominates rewards = 0")
     f = ctx.need_fn(R, DK + "get_withdraw_address")
     if f is not None:
